@@ -4,15 +4,16 @@ import common as C
 import seqprop
 from runner import Violation
 
-LEVEL = "fault_enumeration"
+LEVEL = "proof"
 LEAN_MODULES = ["FsDb.Properties.C04"]
 TIES = ["store_Set", "store_Delete", "core_Store", "core_UpdateTx", "core_Load", "cleaner_deleteFile", "cleaner_DeleteFiles",
         "badger_Set", "badger_Delete", "badger_RunTransaction", "content_Store", "inline_New", "inline_Close", "app_New",
         "repo_file_Set", "repo_cf_Store", "repo_cf_Delete", "repo_file_Delete"]
 TRUSTED_BASE = [
-    "Lean 4.33.0 kernel for the theorems listed; the allowed post-crash states are computed by the Lean specification (Spec.Iso through the driver): the state after the acknowledged operations, or that plus the operation in flight, then `reopen` in a fresh process",
+    "Lean 4.33.0 kernel for the theorems listed (C04_crash_cut: every cut of every operation's persistent-mutation sequence recovers to the acknowledged state or that plus the whole operation in flight, on the concrete model); for the enumeration on the real code the allowed post-crash states are computed by the Lean specification (Spec.Iso through the driver): the state after the acknowledged operations, or that plus the operation in flight, then `reopen` in a fresh process",
     "crash = SIGKILL of the process immediately before its n-th persistent mutation (verif hook Mut at mkdir/create/write/close/remove/Badger set/delete/batch); power loss is out of scope (the property says 'the process is killed')",
     "Badger: a committed Update survives process kill, an uncommitted one leaves nothing (trusted, exercised)",
+    "the ORDER and granularity of persistent mutations is modelled (Proofs/Crash.lean, Model/Persist.lean) and tied three ways: skeleton texts, the per-content-id lifecycle of the observed mutation traces judged by the Lean model (driver `life`), and the crash enumeration itself",
     "tie: skeleton texts of store.Set/Delete, core.Store, UpdateTx (one RunTransaction), Load, deleteFile, the Badger manager, content.Store",
 ]
 ASSUMPTIONS = ["process kill, not power loss", "the OS keeps written file data across a process kill"]
@@ -75,16 +76,67 @@ def correspond(ctx):
             violations.append(Violation(why, "workload %d killed before mutation %d%s: recovered state %s is neither the acknowledged state %s nor that plus the in-flight `%s` %s%s"
                                         % (c["workload"], c["cut"], (" (recovery killed before its mutation %d)" % c["recovery_cut"]) if c.get("recovery_cut") else "",
                                            st, sa, c["inflight"], sb, (" — reopen error: " + c["err"]) if c.get("err") else ""), rp))
+    life = lifecycles(ctx, len(stats["workloads"]))
+    for wl, cid, seq in life["bad"][:1]:
+        rp = C.write_replay("C04", "mutation-order", {"property": "C04", "kind": "mutation-order", "workload_ops": stats["workloads"][wl]["ops"],
+                            "content_id": cid, "observed_mutations": seq,
+                            "modelled_order": "file cf rec rec* rm delcf delrec | rec rec* (tombstone)", "seed": ctx.seed})
+        violations.append(Violation("mutation-order", "workload %d: the persistent mutations of content %s came in the order `%s`, which the crash-point model (Persist.ok) does not allow: a crash between them can expose a partial content or lose a live one"
+                                    % (wl, cid[:8], " ".join(seq)), rp, found_input=True))
     nontriv = sum(1 for c in cuts if c["acked"])
     cov = {"evaluations": len(cuts), "distinct_nontrivial": nontriv,
            "rule": "every cut point of %d workloads (14-27 autocommit and transactional ops each incl. Create/SetReader, collector passes): SIGKILL before the n-th persistent mutation for EVERY n, reopen in a fresh process, dump Get of all keys + GetKeys, reopen again%s; distinct = (workload, cut[, recovery cut]); non-trivial = at least one operation had been acknowledged" % (
                len(stats["workloads"]), "; thorough: the recovery itself is killed before each of ITS mutations and recovered again" if ctx.thorough else ""),
            "exhaustive": True, "traces_validated_against_impl": len(cuts),
-           "distribution": {"cuts_by_inflight_outcome": kinds, "mutations_per_workload": [w["mutations"] for w in stats["workloads"]]},
+           "distribution": {"cuts_by_inflight_outcome": kinds, "mutations_per_workload": [w["mutations"] for w in stats["workloads"]],
+                            "content_lifecycles_checked": life["checked"], "lifecycle_shapes": life["shapes"]},
            "samples": [{"ops": stats["workloads"][0]["ops"], "cut": cuts[len(cuts) // 2]["cut"], "acked": cuts[len(cuts) // 2]["acked"],
                         "inflight": cuts[len(cuts) // 2]["inflight"], "state": cuts[len(cuts) // 2]["state"]}],
            "summary": "%d crash points: every recovered state allowed (%s)" % (len(cuts), kinds)}
     return {"violations": violations, "coverage": cov}
+
+
+KIND = {"bset-cf": "cf", "bset-rec": "rec", "remove": "rm", "bdel-cf": "delcf", "bdel-rec": "delrec"}
+
+
+def lifecycles(ctx, nw):
+    """per content id, the order of its persistent mutations in the uninterrupted run of every workload,
+    judged by the Lean model of the order (Persist.ok, driver command `life`)"""
+    seqs = []
+    for w in range(nw):
+        p = os.path.join(ctx.rd, "c04.muts.%d" % w)
+        if not os.path.exists(p):
+            raise C.MachineryError("no mutation log for workload %d" % w)
+        per = {}
+        for line in C.read_lines(p):
+            f = line.split()
+            if len(f) < 3 or f[2] == "-":
+                continue
+            kind, cid = f[1], f[2]
+            ks = per.setdefault(cid, [])
+            if kind in ("create", "write"):
+                continue                      # the file counts when it is complete (closed)
+            if kind == "close":
+                ks.append("file")
+            elif kind in KIND:
+                ks.append(KIND[kind])
+        for cid, ks in per.items():
+            if ks:
+                seqs.append((w, cid, ks))
+    ops_p, out_p = os.path.join(ctx.rd, "c04.life.ops"), os.path.join(ctx.rd, "c04.life.out")
+    with open(ops_p, "w") as f:
+        for _, _, ks in seqs:
+            f.write("life " + " ".join(ks) + "\n")
+    C.run_driver(ops_p, out_p)
+    ans = [l for l in C.read_lines(out_p)]
+    bad, shapes = [], {}
+    for (w, cid, ks), a in zip(seqs, ans):
+        shapes[" ".join(ks)] = shapes.get(" ".join(ks), 0) + 1
+        if a != "ok":
+            bad.append((w, cid, ks))
+    if not seqs:
+        raise C.MachineryError("no content lifecycles observed")
+    return {"checked": len(seqs), "bad": bad, "shapes": shapes}
 
 
 def search(ctx):
